@@ -1,26 +1,83 @@
 # Table read by gen_manifest.py.  chk(pid, level, text, note, technique, engine, design_ref); NA[pid] = reason.
-HOOK_COMMITS = []
+HOOK_COMMITS = ["488a99c"]
 NOTES = ("Solver-based checking only. exit 0 = all obligations inside the stated bounds discharged; exit 1 = counterexample "
-         "reproduced natively (VIOLATION line); exit 2 = inconclusive (never a pass). Known findings: known_findings.json.")
+         "reproduced natively against the real crate (VIOLATION line); exit 2 = inconclusive (time-out, not-encoded obligation, "
+         "non-reproducing model) and never a pass. Known findings / fixed defects: known_findings.json. Two genuine defects were "
+         "repaired in /repo with 'fix:' commits (f73c2ca C16, 23a64ca C09/C11).")
 
+E2 = "E2-mir-smt"
+E1 = "E1-kani"
+BOTH = "E2-mir-smt + E1-kani"
+SMT = "symbolic execution of the MIR + z3 (QF_FP bit-precise / nonlinear real arithmetic with rounding variables)"
+BMC = "bounded model checking (Kani/CBMC) of the compiled crate over symbolic f64/u64 inputs"
+
+chk("C01", "proof",
+    "Every evaluate impl (Poly0..8, PolyN lengths 0..12, Log<Poly0..8>) is executed symbolically from the MIR; z3 proves for ALL real inputs that the operation tree equals sum c_i x^i (exact arithmetic), that the rounded result is linear in the coefficients and every monomial lane carries a factor within 4(n+2)*2^-53 of 1 (tightness twins sat), and bit-precisely that Log<T>::evaluate(v) is T::evaluate(ln v). A Kani anchor checks exactness on exactly representable integers through the compiled code incl. fma.",
+    "Standard rounding model (no overflow/underflow: the property's own proviso); ln uninterpreted; PolyN length <= 12; Kani anchor on |c|<=4,|x|<=3. Trusted: rustc MIR dump, own interpreter (validated every run against the native crate), z3.",
+    SMT + "; Kani anchor", BOTH, "DESIGN.md §4 C01")
 chk("C02", "model_checking",
-    "Kani/CBMC decides, for every concrete segment count 1..4 (quick) / 1..6 (thorough), that Piecewise::evaluate returns bit-for-bit the value of the piece chosen by the property's index rule, for ALL non-NaN non-decreasing f64 ends and ALL non-NaN x (so every breakpoint, its ulp-neighbours, +-inf, duplicates are covered symbolically).",
-    "Trusted: Kani's translation, CBMC+CaDiCaL, probe piece type. Bound: <= 6 segments; no induction over the segment count.",
-    "bounded model checking (Kani/CBMC) of the real code over symbolic f64 inputs", "E1-kani", "DESIGN.md §4 C02")
+    "Kani/CBMC decides, for every concrete segment count 1..4 (quick) / 1..6 (thorough), that Piecewise::evaluate returns bit-for-bit the value of the piece chosen by the property's index rule, for ALL non-NaN non-decreasing f64 ends and ALL non-NaN x (every breakpoint, its ulp-neighbours, +-inf, duplicates are covered symbolically).",
+    "Bound: <= 6 segments; no induction over the segment count. Trusted: Kani's translation, CBMC+CaDiCaL, probe piece type.",
+    BMC, E1, "DESIGN.md §4 C02")
 chk("C03", "model_checking",
-    "Kani/CBMC decides bit-equality of PiecewiseEvaluator and Piecewise::evaluate after every query for all histories of Q symbolic non-NaN f64 queries on N symbolic segments, (N,Q) up to (3,3) quick and (4,4),(5,3),(3,5) thorough.",
-    "Trusted: Kani, CBMC. Bound: history length and segment count as listed; longer histories outside the claim.",
-    "bounded model checking (Kani/CBMC) over symbolic query histories", "E1-kani", "DESIGN.md §4 C03")
+    "Kani/CBMC decides bit-equality of PiecewiseEvaluator and Piecewise::evaluate after every query for all histories of Q symbolic non-NaN f64 queries on N symbolic segments, (N,Q) up to (3,3) quick and (4,4),(5,3),(3,5) thorough; thorough adds the auxiliary state-independence harness (hook) that extends the claim to histories of any length for N<=4.",
+    "Bound: history length and segment count as listed. The state-independence harness is auxiliary (stronger than the property): its failure is recorded, not reported as a violation.",
+    BMC, E1, "DESIGN.md §4 C03")
+chk("C04", "proof",
+    "constrained_spline is executed symbolically AS A WHOLE from its MIR (slicing, zips, chains, closures, f_dx, segment) for 3,4 (quick) / 3..6 (thorough) knots; for every f_dx branch pattern z3's nlsat proves over ALL real knots with strictly increasing x: ends = right abscissae, both Hermite interpolation conditions per cubic, C1 continuity, harmonic-mean/zero interior slopes, 3/2-1/2 end slopes, no divisor can vanish; ends verbatim bit-precisely; left-knot rounding bound 12u per monomial for the kernel.",
+    "Exact-arithmetic meaning of the code + left-knot rounding bound; right-knot/derivative rounding bounds (conditioning (|x|/dx)^3) are not decided. Knot counts beyond the list are outside the claim.",
+    SMT, E2, "DESIGN.md §4 C04")
+chk("C05", "proof",
+    "Same whole-function encoding; z3's nlsat decides for every branch pattern, ALL real admissible knots AND EVERY real t of each interval that the cubic is monotone and stays between the knot ordinates (no sampling of t), that the branch taken equals the sign-change predicate, zero slope at extrema, collinear data -> the straight line, and coefficient-wise equality with Kruger's formulas; the sign branch of f_dx bit-precisely in FP.",
+    "Shape claims are about the exact-arithmetic meaning of the code (no posing of monotonicity under rounding was found that nlsat finishes); 3,4 (quick) / 3..5 knots.",
+    SMT, E2, "DESIGN.md §4 C05")
+chk("C06", "proof",
+    "linear() executed symbolically as a whole from MIR for 2..4 (5) knots; for every narrow/wide pattern z3 proves running-maximum ends, the machine-epsilon threshold (also bit-precisely in FP, where `<` vs `<=` differs at exactly one float), constant narrow segments, the straight-line interpolant for every real t, non-vanishing divisors and the left-knot rounding bound 4u; Kani confirms ends/length/no-panic on the compiled code.",
+    "Right-knot rounding bound (conditioning |x|/dx) not decided; knot counts beyond the list outside the claim.",
+    SMT + "; Kani structure harness", BOTH, "DESIGN.md §4 C06")
+chk("C07", "proof",
+    "indefinite()/integral() of Poly0..7 and through Segment<T>: z3 proves constant term 0 and c0 exact (FP), every coefficient within (2u+u^2) relative of c_i/(i+1), F(knot.x)=knot.y and F(b)-F(a)=exact integral for all reals (exact arithmetic), knot-residual bound 4(n+3)u per monomial, derivative(indefinite(p)) within (2u+u^2) of p.",
+    "Standard rounding model; no input bound otherwise.", SMT, E2, "DESIGN.md §4 C07")
+chk("C08", "proof",
+    "derivative() of Poly0..8 and Segment<T>: z3 proves power-of-two lanes exact (FP, all finite inputs), every lane within (2u+u^2) relative of (i+1)c_(i+1), value identity p'(x) in exact arithmetic; Kani proves Piecewise::derivative keeps length, order and breakpoints and differentiates each piece once.",
+    "Piecewise structure for 1..3 (4) segments with a logging piece type.", SMT + "; Kani structure harnesses", BOTH, "DESIGN.md §4 C08")
+chk("C09", "proof",
+    "integral()/indefinite() of Log<Poly0..8> and evaluate of IntOfLog<T>/IntOfLogPoly4 executed symbolically; with ln v a free real per point, 'F - G is constant' (G the textbook antiderivative) and F(knot.x)=knot.y are polynomial identities z3 decides for all degrees; counterexamples replay natively against a 60-digit reference. Found and fixed the missing factor v in IntOfLog::evaluate.",
+    "Exact-arithmetic identities; libm ln/exp accuracy outside the claim; for the quartic form exp_5_taylor is abstracted to R (tied to the code by C10).",
+    SMT, E2, "DESIGN.md §4 C09, §5")
+chk("C10", "proof",
+    "z3 proves: the 16-term Estrin series = sum x^m/(m+5)! and the closed form = (e^x - P4)/x^5 (exact arithmetic), evaluate = k + v sum c_j x^j + u v x^5 T(x), branch thresholds bit-precisely, value at v=1 exactly k, series truncation <= 1e-13 relative and per-lane rounding <= 73u on the branch interval read from the MIR, conditioning <= 70 of the closed form outside it.",
+    "Not reachable: libm accuracy (assumed <= 1 ulp), exp overflow for subnormal v, rounding lanes of the closed form (only its conditioning), a float-by-float sweep near v=1 (replaced by all-x symbolic statements). Geometric majorant and exp monotonicity are pen-and-paper assumptions.",
+    SMT, E2, "DESIGN.md §4 C10")
+chk("C11", "proof",
+    "Kani proves Piecewise::integral/indefinite and both segment iterators equal, bit for bit, the property's running-knot recurrence (logging pieces, 1..3(4) segments); Piecewise<Poly1|Poly3|Log<Poly1>(...)>::integral is executed symbolically as a whole and z3 proves breakpoints unchanged, first piece through k0, continuity at every interior breakpoint and per-piece antiderivative identities (exact arithmetic).",
+    "F(t)=k0.y+integral follows by the fundamental theorem of calculus (mathematical step); rounding at breakpoints is one subtraction per piece (bounded per piece by C07/C09).",
+    BMC + "; " + SMT, BOTH, "DESIGN.md §4 C11")
+chk("C12", "model_checking",
+    "Kani/CBMC decides that evaluate_v yields exactly one output per input, the k-th after pulling exactly k inputs, each bit-identical to the piece direct evaluation selects for the running maximum (pointwise evaluation on non-decreasing input), for (segments, arguments) up to (3,3) quick / (4,4),(5,3) thorough.",
+    "Bound: sizes as listed.", BMC, E1, "DESIGN.md §4 C12")
+chk("C13", "model_checking",
+    "Kani/CBMC decides for both merge loops (+ and -), operand lengths up to (3,2) quick / (4,4) thorough, all non-NaN non-decreasing ends and every non-NaN x: 1..N+M-1 pieces, non-decreasing non-NaN breakpoints drawn bit-identically from the operands, and the selected piece combines exactly the pieces f and g select at x.",
+    "Value clause follows by composing with C14 (coefficient-wise + and -). Bound: operand lengths as listed.", BMC, E1, "DESIGN.md §4 C13")
+chk("C14", "proof",
+    "All 61 operator impls found in the MIR dump (129 instantiations over Poly0..8, Log<T>, IntOfLog<T>, IntOfLogPoly4, PolyN) are executed symbolically in bit-precise binary64; z3 proves every output number equals the correctly rounded scalar operation on the matching input number(s) for ALL finite inputs, `*=` == `*`, translate touches only the additive constant; pointwise value statements by exact-arithmetic linearity.",
+    "Finite inputs (as the property states); results compared with fp.eq (signed zeros identified).", SMT, E2, "DESIGN.md §4 C14")
+chk("C15", "model_checking",
+    "Kani/CBMC decides for *, *=, unary -, translate (and derivative) on Segment<T> and Piecewise<T> (1..3(4) pieces, ends any f64 incl. NaN, any scalar): number, order and breakpoints bit-identical, each piece receives the operation exactly once with that scalar.",
+    "Generic code monomorphised over a logging piece type; pointwise values follow from C14.", BMC, E1, "DESIGN.md §4 C15")
 chk("C16", "model_checking",
-    "Kani/CBMC decides that query histories containing NaN/inf leave later non-NaN answers bit-identical to direct evaluation, and that the public operations do not panic on well-formed input, per concrete size.",
-    "Trusted: Kani, CBMC. Bound: sizes listed in evidence.",
-    "bounded model checking (Kani/CBMC) with panic/bounds/overflow checks", "E1-kani", "DESIGN.md §4 C16")
-
-for _p, _r in [
-    ("C01", "check under construction (E2 MIR->SMT encoder)"), ("C04", "check under construction"),
-    ("C05", "check under construction"), ("C06", "check under construction"), ("C07", "check under construction"),
-    ("C08", "check under construction"), ("C09", "check under construction"), ("C10", "check under construction"),
-    ("C11", "check under construction"), ("C12", "check under construction"), ("C13", "check under construction"),
-    ("C14", "check under construction"), ("C15", "check under construction"), ("C17", "check under construction"),
-    ("C18", "check under construction"), ("C19", "check under construction")]:
-    NA[_p] = _r
+    "Kani/CBMC decides: NaN-containing query histories keep later non-NaN answers bit-identical to direct evaluation (found and fixed the NaN-poisoning defect); evaluate / evaluator / evaluate_v accept any f64; all per-piece operators, merges, integral/indefinite and linear() return without panic/bounds/overflow failure on well-formed operands; each documented rejection is reachable. MIR path enumeration shows no panic path in linear()/constrained_spline() and the numeric kernels.",
+    "Sizes as listed in evidence; constrained_spline on the compiled code is not finished by CBMC (float instrumentation) and is covered by the MIR path enumeration instead.",
+    BMC + "; MIR path enumeration", BOTH, "DESIGN.md §4 C16, §5")
+chk("C17", "proof",
+    "All 30 AbsDiffEq/RelativeEq impls in the MIR dump are executed symbolically with the scalar relations as uninterpreted predicates; z3 proves result <=> conjunction over all corresponding numbers on every short-circuit path, and false for unequal lengths (Piecewise 0..3 vs 0..3 pieces, PolyN 0..3 vs 0..3); Kani anchors the assumed array/slice contract on the real approx code.",
+    "Reflexivity/symmetry of approx's scalar relations are the dependency's; relative_eq on the real approx code is covered only through the uninterpreted model.",
+    SMT + " with uninterpreted predicates; Kani anchor", BOTH, "DESIGN.md §4 C17")
+chk("C18", "model_checking",
+    "Kani/CBMC decides bit-identical round trips for ALL non-NaN f64 contents: serde through a harness-local binary Serializer/Deserializer driving the derived impls (Knot, Poly0..8, Log, IntOfLog, IntOfLogPoly4, Segment, Piecewise with 0..3 segments), borsh (feature on) through its own reader/writer for all fixed-size forms and Segment<T>.",
+    "Not applicable parts: text formats (float printing/parsing loops of a dependency); borsh framing of Vec<Segment<T>> (CBMC does not finish).",
+    BMC, E1, "DESIGN.md §4 C18")
+chk("C19", "model_checking",
+    "Kani/CBMC decides for every byte string of each enumerated (list shape <= 3 breakpoints, total length) with all payload bytes symbolic: Arbitrary returns Err or >=1 segment with normal, sorted ends, never panics, and the result evaluates identically through all three evaluators at any f64.",
+    "Control bytes are fixed per shape (their irrelevance beyond the low bit is proved separately); piece type Poly0; <= 3 breakpoints.",
+    BMC, E1, "DESIGN.md §4 C19")
